@@ -26,6 +26,8 @@
  *   sample <0|1|2>                         (1: sample at every on_time_advance, printing only running activities and
  *                                           loaded resources; 2: print every activity and resource)
  *   energy <0|1|2>                         (1: read energies only at the end, 2: at every sample as well)
+ *   waiters <0|1>                          (1: one actor per activity waits for it from its start, as a user program would)
+ *   skipavail <0|1>                        (1: do not call Host::get_available_speed when sampling)
  *   horizon <date>                         (controller stays alive until then)
  *   end
  *
@@ -101,7 +103,7 @@ struct Case {
   std::vector<std::vector<std::string>> hosts, links, disks, routes, profiles;
   std::vector<ActSpec> acts;
   std::vector<EvSpec> evs;
-  int sample = 0, energy = 0;
+  int sample = 0, energy = 0, skipavail = 0, waiters = 0;
   double horizon = -1;
 };
 
@@ -109,7 +111,7 @@ static std::vector<ActRun> runs;
 static std::vector<sg4::Host*> hosts_v;
 static std::vector<sg4::Link*> links_v;
 static std::vector<sg4::Disk*> disks_v;
-static int g_energy = 0, g_sample = 0;
+static int g_energy = 0, g_sample = 0, g_skipavail = 0;
 static bool g_host_energy = false, g_link_energy = false;
 
 static ActRun* find_run(const std::string& id)
@@ -188,7 +190,7 @@ static void emit_sample(const char* where)
     if (g_sample < 2 && load <= 0)
       continue;
     printf("H %s load=%.17g speed=%.17g avail=%.17g pstate=%lu on=%d cores=%d", h->get_cname(), load, h->get_speed(),
-           h->get_available_speed(), h->get_pstate(), (int)h->is_on(), h->get_core_count());
+           g_skipavail ? -1.0 : h->get_available_speed(), h->get_pstate(), (int)h->is_on(), h->get_core_count());
     if (g_host_energy && g_energy >= 2)
       printf(" energy=%.17g", sg_host_get_consumed_energy(h));
     printf("\n");
@@ -408,6 +410,7 @@ static int run_case(const Case& c)
   sg4::Engine e(&argc, argv.data());
   g_energy   = c.energy;
   g_sample   = c.sample;
+  g_skipavail = c.skipavail;
   auto* zone = e.get_netzone_root();
 
   std::map<std::string, sg4::Host*> hm;
@@ -578,6 +581,10 @@ static bool read_case(std::istream& in, Case& c)
       c.sample = atoi(t[1].c_str());
     else if (k == "energy")
       c.energy = atoi(t[1].c_str());
+    else if (k == "skipavail")
+      c.skipavail = atoi(t[1].c_str());
+    else if (k == "waiters")
+      c.waiters = atoi(t[1].c_str());
     else if (k == "horizon")
       c.horizon = num(t[1]);
     else {
